@@ -548,6 +548,10 @@ func (c *FnCtx) lockOp(p *Path, m Val, mode int, acquire bool) {
 		p.heap.m[key] = fmt.Sprintf("(store %s %s %d)", arr, m.T, mode)
 		p.held = append(p.held, key)
 		c.monitorAcquire(p, key, m)
+		if mode == 2 && len(p.frames) == 1 {
+			snap := p.heap.clone()
+			p.lastAcq = &snap
+		}
 		return
 	}
 	c.oblige(p, "lock", "unlock_held_"+shortKey(key), fmt.Sprintf("(= %s %d)", cur, mode), "releasing "+key+" in the mode it is held", nil)
